@@ -173,6 +173,7 @@ type c09Config struct {
 	BadTurnURL  bool // a second TURN URL without credentials follows the valid one (accepted at construction, skipped by the gatherer)
 	LongStunTimeout bool // STUN gather timeout 10 s instead of 60 ms: cancellation, not the timeout, has to end pending exchanges
 	TwoStunURLs     bool // a second STUN server that reports the same mapped address: duplicate server-reflexive candidates
+	OddLocalAddr    bool // the transport.Net's UDP sockets report a local address type the gatherers do not know: every socket is rejected
 }
 
 func c09ConfigGen() *rapid.Generator[c09Config] {
@@ -199,6 +200,8 @@ func c09ConfigGen() *rapid.Generator[c09Config] {
 		c.BadTurnURL = rapid.IntRange(0, 3).Draw(t, "badTurnURL") == 0
 		c.LongStunTimeout = rapid.IntRange(0, 3).Draw(t, "longStunTimeout") == 0
 		c.TwoStunURLs = rapid.IntRange(0, 2).Draw(t, "twoStunURLs") == 0
+		// (host gathering only: the reflexive and relay gatherers assert the address type)
+		c.OddLocalAddr = c.Mux == "" && len(c.Types) == 1 && c.Types[0] == CandidateTypeHost && rapid.IntRange(0, 3).Draw(t, "oddLocalAddr") == 0
 
 		return c
 	})
@@ -242,6 +245,7 @@ func newC09World(cfg c09Config, extra ...AgentOption) (*c09World, error) {
 	if cfg.TwoStunURLs {
 		w.fn.stunServers["198.51.100.4:3478"] = cfg.StunMode
 	}
+	w.fn.oddLocalAddr = cfg.OddLocalAddr
 	w.fn.turnMode = cfg.TurnMode
 	w.fn.closeErr = cfg.CloseErr
 	if cfg.ListenErrAt > 0 {
